@@ -148,3 +148,23 @@ PROPS["C12"] = dict(
         dict(name="matrix", run="^TestChildMatrix$", tier="thorough", thorough=16, shards=16, timeout_thorough=3000),
     ],
 )
+
+PROPS["C04"] = dict(
+    pkg="c04", level="exploration",
+    technique="property-based testing (rapid) with encoding/json as independent judge and a by-meaning comparison of every member; native fuzzing of message/key/value bytes",
+    claim=("Generated records (every severity incl. registered/unregistered custom levels, named/unnamed logger, caller on/off, through "
+           "WriteThru with an explicit timestamp, LogAttrs arguments or logger attributes; messages and keys of any bytes; values of every "
+           "supported kind; groups nested to depth 4) are emitted in JSON mode and the payload must be one line, valid UTF-8, one JSON object "
+           "accepted by encoding/json, whose members are exactly time, logger (iff named), level, msg, caller (iff enabled) and one member per "
+           "attribute, each compared by meaning in both directions. Exploration of sampled inputs."),
+    note="Reserved names time/level/msg/caller/logger are excluded as keys at every nesting level; keys are unique per level (C07 owns merging) also after replacing invalid UTF-8 bytes; records whose keys are not valid UTF-8 are judged for framing only; fallback-formatted values only for well-formedness and containing fmt.Sprint of the value; user marshallers/stringers are outside the domain; an Always-severity blank message is not a record (C02).",
+    rule=("rapid draws the configuration, a message (ascii, arbitrary bytes, hostile constants, multi-line, >1024 bytes, blank) and an attribute "
+          "tree (keys: identifiers, arbitrary bytes, hostile constants; values: 22 scalar kinds, 17 typed slice kinds, 7 fallback kinds; groups at "
+          "any position, possibly empty). Non-trivial: a hostile byte class in message/key/value (quote, backslash, CR/LF, control, ESC, invalid "
+          "UTF-8, U+2028), or a group, or a non-string kind; distinct = the set of classes and kinds present."),
+    assumptions=["encoding/json (with UseNumber, plus a UTF-8 validity check and a duplicate-name check) is the JSON judge"],
+    stages=[
+        dict(name="records", run="^TestJSONRecords$", quick=40000, thorough=1600000, shards=16, timeout_thorough=3000),
+        dict(name="fuzz", fuzz="FuzzJSON", fuzztime=180),
+    ],
+)
